@@ -161,6 +161,9 @@ func c09ParseTokens(toks []sql.Token) (res any, err error, pan any) {
 	}
 	p := sql.Parser{TokenList: tl}
 	res, err = p.Parse()
+	if err != nil {
+		_ = err.Error() // an error value is something whose message can be read
+	}
 	return
 }
 
@@ -171,6 +174,9 @@ func c09ParseText(q string) (res any, err error, pan any) {
 		}
 	}()
 	res, err = parseSQL(q)
+	if err != nil {
+		_ = err.Error() // an error value is something whose message can be read
+	}
 	return
 }
 
